@@ -3,6 +3,7 @@
    status numbers, mask letters, refused-status sets) come from Gen/Fiber.lean, regenerated from the C on every run. -/
 import JanetModel.Fiber.Macros
 import JanetModel.Fiber.GuardLemmas
+import JanetModel.Fiber.GuardCleanup
 import JanetModel.Fiber.SchedLemmas
 import JanetModel.Fiber.Dyn
 import JanetModel.Fiber.Named
@@ -833,6 +834,41 @@ theorem status_monotone_guarded (lim : Nat) (s : State) (hinv : Inv s) (n : Nat)
     `step` / `run` above applies to such executions -/
 theorem guarded_is_unguarded_below (after : Bool) (lim : Nat) (s : State) (h : depthOf s + chainFuel s < lim) :
     stepG after lim s = step s := stepG_below after lim s h
+
+/-- ★ the cleanup / catch theorems for the GUARDED machine, at any limit: a recursion-guard trip (on the instruction's own
+    target; a trip deeper in a suspended child chain ends in `Stuck`) is one more refused resume — it fails the refused
+    fiber, which for the macro's body fiber IS an exit (status :error, handed to the parent by masks :ti / :ie), and never
+    makes the code after the macro's resume run early or twice.  Same shape and hypotheses as `macro_runs_exactly_once`,
+    along `runG guardAfterRefusals lim`. -/
+theorem macro_runs_exactly_once_guarded (m : Nat) (hm : AccFin m) (lim : Nat) (p f : FId) (cont : Cont) (s : State) (hinv : Inv s)
+    (hne : p ≠ f) (hb : Blk m p f cont s s.stack) (hpriv : ∀ i, Priv p f (runG guardAfterRefusals lim i s)) (n : Nat) :
+    Blk m p f cont (runG guardAfterRefusals lim n s) (runG guardAfterRefusals lim n s).stack ∨
+    ∃ i, i ≤ n ∧ (∀ j, j < i → Blk m p f cont (runG guardAfterRefusals lim j s) (runG guardAfterRefusals lim j s).stack) ∧
+      (Stuck (runG guardAfterRefusals lim i s) ∨
+       (Exited p f cont (runG guardAfterRefusals lim i s) ∧
+          ∀ k, ∃ ff, (runG guardAfterRefusals lim k (runG guardAfterRefusals lim i s)).fiber? f = some ff ∧ isFinished ff.status = true) ∨
+       (Passed m p f cont (runG guardAfterRefusals lim i s) ∧
+          ∀ k, ∃ ff, (runG guardAfterRefusals lim k (runG guardAfterRefusals lim i s)).fiber? f = some ff ∧ isFinished ff.status = true)) := by
+  have fin : ∀ (s' : State), Inv s' → ∀ ff, s'.fiber? f = some ff → isFinished ff.status = true →
+      ∀ k, ∃ ff', (runG true lim k s').fiber? f = some ff' ∧ isFinished ff'.status = true := by
+    intro s' hinv' ff hff hfin k
+    obtain ⟨ff', h1, h2, _⟩ := (runG_res lim k s' hinv').1 f ff hff
+    refine ⟨ff', h1, ?_⟩
+    rcases h2 with h | ⟨h, _⟩
+    · rw [← h]; exact hfin
+    · rw [hfin] at h; cases h
+  rcases blocked_until_exit_guarded hm lim n s hinv hne hb hpriv with h | ⟨i, hi, hbefore, hat⟩
+  · exact Or.inl h
+  · refine Or.inr ⟨i, hi, hbefore, ?_⟩
+    have hinv' := (runG_res lim i s hinv).2
+    rcases hat with h | h | h
+    · exact Or.inl h
+    · have h' := h
+      obtain ⟨⟨ff, hff, hfin⟩, _⟩ := h'
+      exact Or.inr (Or.inl ⟨h, fin _ hinv' ff hff hfin⟩)
+    · have h' := h
+      obtain ⟨ff, _, hff, _, hfin, _⟩ := h'
+      exact Or.inr (Or.inr ⟨h, fin _ hinv' ff hff hfin⟩)
 
 /-- the witness behind finding 5 (fixed in /repo 3d82764, corpus/C05/guard-clobbers-status.janet): with the guard tested
     BEFORE the refusals, a `(resume d)` of a :dead fiber at the limit turns it :error — a finished fiber changes status;
